@@ -204,7 +204,26 @@ func (g *rpGen) route(pfx string) Sx {
 	if g.r.Chance(1, 3) {
 		later = g.mws(2)
 	}
-	s := L(A("route"), SL([]string{"GET"}), S(reg), I(mainID), LS(g.mws(2)), LS(later), S(""))
+	// the methods of the route: mostly GET; sometimes another single method (the verb shortcuts), two methods, or all nine
+	meths := []string{"GET"}
+	switch g.r.Intn(10) {
+	case 0:
+		meths = []string{g.r.Pick(rtMethods)}
+	case 1:
+		meths = []string{"GET", "POST"}
+	case 2:
+		meths = []string{"PUT", "PATCH", "DELETE"}
+	case 3:
+		meths = append([]string{}, rtMethods...)
+	}
+	reqMethod := meths[g.r.Intn(len(meths))]
+	s := L(A("route"), SL(meths), S(reg), I(mainID), LS(g.mws(2)), LS(later), S(""))
+	if len(meths) == len(rtMethods) && len(later) == 0 && g.r.Bool() {
+		s.List = append(s.List, A("any")) // Router.Any(path, main, mw...)
+		g.reqs = append(g.reqs, L(S(reqMethod), S(reqPath), L()))
+		g.routeIx++
+		return s
+	}
 	switch g.r.Intn(8) {
 	case 0: // the route carries its middleware when it is added (NewRoute().Use() then AddRoute / AttachTo)
 		s.List = append(s.List, A("pre"))
@@ -213,7 +232,10 @@ func (g *rpGen) route(pfx string) Sx {
 	case 2, 3: // r.GET(path, main, mw...)
 		s.List = append(s.List, A("short"))
 	}
-	g.reqs = append(g.reqs, L(S("GET"), S(reqPath), L()))
+	g.reqs = append(g.reqs, L(S(reqMethod), S(reqPath), L()))
+	if reqMethod == "GET" && g.r.Chance(1, 6) { // a HEAD request is answered by the GET route, with the same chain
+		g.reqs = append(g.reqs, L(S("HEAD"), S(reqPath), L()))
+	}
 	g.routeIx++
 	return s
 }
@@ -465,7 +487,7 @@ func c05Gen(r *Rng, tier string, i int) Sx {
 	case 1:
 		n = r.Range(41, 63)
 	}
-	return c05Make(r, n, r.Intn(n), r.Intn(5), r.Intn(3), true)
+	return c05Make(r, n, r.Intn(n), r.Intn(6), r.Intn(3), true)
 }
 
 // c05Limit: group + route middleware at and just over the limit of the abort sentinel (63 handlers), through every way of
@@ -518,6 +540,8 @@ func c05Make(r *Rng, n, pos, kind, when int, isab bool) Sx {
 			return []Sx{marker, L(A("abs"), I([]int{401, 403, 500, 204}[r.Intn(4)]))}
 		case 4: // two aborts in one handler: the later AbortWithStatus still decides the status
 			return []Sx{marker, L(A("abort")), L(A("abs"), I([]int{401, 503}[r.Intn(2)]))}
+		case 5: // AbortWithStatus with a message (an error page, then the abort)
+			return []Sx{marker, L(A("absm"), I([]int{401, 403, 500, 404}[r.Intn(4)]))}
 		default:
 			return []Sx{marker, L(A("abs"), I(403)), L(A("w"), L(A("st"), I(418)))}
 		}
